@@ -432,6 +432,9 @@ structure DState where
   eofFed : Bool := false           -- harness closed the input after the fed frames
   eofSeen : Bool := false          -- Read has reported the end of the stream
   pg : PgState := {}               -- paged lists: the registries of the server under test
+  logging : Bool := false          -- the connection stands behind a `LoggingTransport`
+  mlog : List LogEntry := []       -- the model's log since the last `io.log`
+  passed : List Passed := []       -- monitor bookkeeping: what the harness saw pass through the wrapper
 
 def showWriteOut : WriteOut → String
   | .nothing => "nothing"
@@ -584,6 +587,8 @@ def clauseBody : Clause → String
   | .rejectedF2_02 => "batch_exactly_once: a well-formed batch containing a notification is rejected as a duplicate id; the read error tears the session down (F2)"
   | .rejected02 => "batch_exactly_once: a well-formed batch is rejected by Read"
   | .dtWrite => "decode_total: ioConn.Write panicked"
+  | .logDiffers p l =>
+    s!"encode_decode_preserves: LoggingTransport: the log ({l} entries) does not show the {p} messages that passed through the connection, in order, each as `read: ` / `write: ` + an encoding of that message"
   | .cwCrash c => s!"ndjson_roundtrip: concurrent Writes on one connection: ioConn.Write {crashText c}"
   | .cwGarbled n =>
     s!"ndjson_roundtrip: concurrent Writes on one connection (a stream that takes a Write in pieces): {n} line(s) of the stream are no JSON value — the frames of two writers ran into each other, neither message reaches the peer"
@@ -707,6 +712,20 @@ def out19 (d : DState) (model : String) (c : Option Clause) : DState × Verdict 
 def outAny (d : DState) (model : String) (c : Option Clause) : DState × Verdict :=
   (d, { model := model, violated := c.map (clauseText d.pid) })
 
+def pLogEntries (fuel : Nat) (ts : List String) (acc : List (Option LogEntry)) : Option (List (Option LogEntry)) :=
+  match fuel, ts with
+  | _, [] => some acc.reverse
+  | 0, _ => none
+  | fuel + 1, t :: ts' =>
+    if t.startsWith "!" then pLogEntries fuel ts' (none :: acc)
+    else if t == "re" then pLogEntries fuel ts' (some .readErr :: acc)
+    else if t == "we" then pLogEntries fuel ts' (some .writeErr :: acc)
+    else if t == "r" || t == "w" then
+      match pJ ts' with
+      | some (v, r') => pLogEntries fuel r' (some (if t == "r" then .read v else .write v) :: acc)
+      | none => none
+    else none
+
 def stepWire (d : DState) (toks : List String) (impl : String) : DState × Verdict :=
   let itoks := words impl
   let toks := match toks with
@@ -715,6 +734,11 @@ def stepWire (d : DState) (toks : List String) (impl : String) : DState × Verdi
   -- `rev`: the harness rendered the members of every object in reverse order (text level; not modelled)
   let toks := match toks with
     | k :: "rev" :: r => if revOps.contains k then k :: r else toks
+    | _ => toks
+  -- `EncodeIndent` (`encind <layout> <msg>`): prefix and indent are insignificant white space (the harness reads the
+  -- text as JSON); the value written is `EncodeMessage`'s, and the same monitor judges it
+  let toks := match toks with
+    | "encind" :: _ :: r => "encdec" :: r
     | _ => toks
   match toks with
   | ["reset"] => ({ pid := d.pid, also := d.also }, { model := "ok" })
@@ -987,6 +1011,24 @@ def stepWire (d : DState) (toks : List String) (impl : String) : DState × Verdi
     match cap.toNat? with
     | some n => ({ pid := d.pid, also := d.also, io := { outCap := n }, mon := { outCap := n } }, { model := "ok" })
     | none => bad d
+  | ["io.new", cap, "log"] =>
+    match cap.toNat? with
+    | some n => ({ pid := d.pid, also := d.also, io := { outCap := n }, mon := { outCap := n }, logging := true }, { model := "ok" })
+    | none => bad d
+  | ["io.log"] =>
+    -- what the LoggingTransport wrote since the last `io.log`: `log <n> (r <J> | w <J> | re | we | !<hex>)*`
+    if !d.logging then bad d else
+    let showE : LogEntry → String
+      | .read v => "r " ++ showJ v | .write v => "w " ++ showJ v | .readErr => "re" | .writeErr => "we"
+    let model := " ".intercalate (["log", toString d.mlog.length] ++ d.mlog.map showE)
+    let obs : LogObs := match itoks with
+      | "log" :: n :: rest =>
+        (match pLogEntries (rest.length + 1) rest [] with
+          | some l => if n == toString l.length then .entries l else .other
+          | none => .other)
+      | _ => .other
+    let (d', v) := out19 d model (logMonitor d.passed obs)
+    ({ d' with mlog := [], passed := [] }, v)
   | "io.feed" :: r =>
     match pJ r with
     | some (w, []) => ({ d with io := { d.io with wire := d.io.wire ++ [w] }, mon := ioFeed d.mon w }, { model := "ok" })
@@ -1006,6 +1048,11 @@ def stepWire (d : DState) (toks : List String) (impl : String) : DState × Verdi
     -- monitor (on the implementation's observation only)
     let (mon', verd) := ioRead d.mon (pReadObs impl)
     let viol := verd.select (pidOf d.pid) (d.also.contains "C03")
+    let d := if d.logging then
+        { d with mlog := d.mlog ++ [(logRead out).2],
+                 passed := d.passed ++ (match pReadObs impl with
+                   | .msg (some m) _ => [Passed.read m] | .err .. => [Passed.readErr] | _ => []) }
+      else d
     ({ d with io := io', mon := mon' }, { model := model, violated := viol.map (clauseText d.pid) })
   | "io.cw" :: _pieces :: r =>
     -- several goroutines write at the same time; observed: the lines of the stream, sorted
@@ -1045,6 +1092,10 @@ def stepWire (d : DState) (toks : List String) (impl : String) : DState × Verdi
       let (io', out) := opWrite d.io m
       let (mon', verd) := ioWrite d.mon m (pWriteObs impl)
       let viol := verd.selectWrite (pidOf d.pid)
+      let d := if d.logging then
+          { d with mlog := d.mlog ++ (logWrite m out).2.toList,
+                   passed := d.passed ++ (if impl == "panic" || impl == "write-error" || impl == "hang" then [] else [Passed.write m]) }
+        else d
       ({ d with io := io', mon := mon' }, { model := showWriteOut out, violated := viol.map (clauseText d.pid) })
     | _ => bad d
   | "nd.split" :: r =>
